@@ -402,6 +402,35 @@ def subscription_change_cases(shard, nshards, step):
                         d += step
 
 
+def partition_growth_cases(shard, nshards, step):
+    """A topic of the group gains a partition at a swept instant while one SyncGroup or JoinGroup reply of the group is
+    held back for 0.4 s; metadata is refreshed every 0.1 s, so the leader learns of the new partition before its
+    join, between its JoinGroup and SyncGroup replies, while its SyncGroup is outstanding, or after the rebalance.  The
+    group has to end up in a generation that covers the new partition, and stay there."""
+    i = 0
+    for sel in ("sync", "join"):
+        for k in (0, 1, 2, 3):
+            for start1 in (0.0, 0.3):
+                for assignor in ("range", "roundrobin"):
+                    d = 0.0
+                    while d <= 1.3001:
+                        i += 1
+                        if i % nshards == shard:
+                            members = [{"topics": ["t0"], "start_at": 0.0, "callback_delay": 0, "ops": [], "loop_poll": "getmany"},
+                                       {"topics": ["t0"], "start_at": start1, "callback_delay": 0, "ops": [], "loop_poll": "getmany"}]
+                            yield {"cfg": {"assignors": [assignor], "session_timeout_ms": 1000, "heartbeat_interval_ms": 100,
+                                           "rebalance_timeout_ms": 1500, "retry_backoff_ms": 10, "request_timeout_ms": 2000,
+                                           "auto_commit": True, "auto_commit_interval_ms": 200, "metadata_max_age_ms": 100,
+                                           "max_poll_interval_ms": 300000},
+                                   "cluster": {"nodes": 1, "topics": {"t0": 2}, "join_max": 5, "group_coord": 0,
+                                               "initial": [3, 2]},
+                                   "members": members, "kills": [],
+                                   "faults": [{"sel": sel, "k": k, "act": "delay", "code": 0, "delay": 0.4}],
+                                   "env": [{"at": round(d, 3), "ev": "add_partitions", "topic": "t0", "count": 1}],
+                                   "run_for": 3.5, "lat": [0.001], "chunks": [0], "rng_seed": 29}
+                        d += step
+
+
 def slow_first_join_cases(shard, nshards):
     """The coordinator refuses the first N JoinGroup / FindCoordinator / SyncGroup requests (still loading, not
     available): the first join of a member stays outstanding for longer than max_poll_interval_ms.  A member that has
@@ -461,4 +490,7 @@ def campaigns(tier):
                      setup=GS.setup, max_wall=1000 if th else 110, shrink_wall=40),
             Campaign("subscription_change", "enum", execute=execute,
                      cases=lambda s, n: subscription_change_cases(s, n, 0.0125 if th else 0.05), exhaustive=True,
+                     setup=GS.setup),
+            Campaign("partition_growth", "enum", execute=execute,
+                     cases=lambda s, n: partition_growth_cases(s, n, 0.02 if th else 0.1), exhaustive=True,
                      setup=GS.setup)]
